@@ -241,6 +241,7 @@ static std::string exec(const std::vector<std::string>& t) {
         }
         else if (o == "sort") p.sort();
         else if (o == "clear") p.clear();
+        else if (o == "selfsafea") { if (op == "sp") { upa::url_search_params& q = p; p.safe_assign(std::move(q)); } else { upa::url_search_params& q = p; p = std::move(q); r = std::to_string(p.size()); } }
         else if (o == "aparse") { const std::string* v = nullptr; WITH(e0, a0, v = p.get(a)); if (v) p.parse(*v); else r = "0"; }
         else if (o == "aappend") { if (p.empty()) r = "0"; else p.append(p.begin()->first, p.begin()->second); }
         else if (o == "aset") { if (p.empty()) r = "0"; else p.set(p.begin()->first, std::prev(p.end())->second); }
@@ -263,6 +264,14 @@ static std::string exec(const std::vector<std::string>& t) {
         const int d = std::atoi(t[2].c_str()), s = std::atoi(t[3].c_str());
         const std::string& o = t[1];
         if (o == "clear") g_url[d].clear();
+        else if (d == s) {
+            upa::url& x = g_url[d];
+            upa::url& y = g_url[s];
+            if (o == "copya") x = y;
+            else if (o == "movea") x = std::move(y);
+            else if (o == "swap") { using std::swap; swap(x, y); }
+            else if (o == "safea") x.safe_assign(std::move(y));
+        }
         else if (d != s) {
             if (o == "copya" || o == "copyc") g_url[d] = g_url[s];
             else if (o == "movea" || o == "movec") g_url[d] = std::move(g_url[s]);
